@@ -525,10 +525,18 @@ def run(ctx):
     for node in walk_no_nested(fn):
         if isinstance(node, ast.If):
             for sub in ast.walk(node):
+                # the matrix is bound to a local first, or built where it is applied
+                built = None
                 if isinstance(sub, ast.Assign) and isinstance(sub.value, ast.Call) and \
                         call_name(sub.value) in rot_fns and sub is not node:
-                    kind = call_name(sub.value)
-                    arg = norm(sub.value.args[0])
+                    built = sub.value
+                elif isinstance(sub, ast.Assign) and isinstance(sub.value, ast.BinOp) \
+                        and isinstance(sub.value.op, ast.MatMult) and isinstance(sub.value.left, ast.Call) \
+                        and call_name(sub.value.left) in rot_fns and sub.value.left.args:
+                    built = sub.value.left
+                if built is not None:
+                    kind = call_name(built)
+                    arg = norm(built.args[0])
                     if 'z_axis' in kind and z_align is None:
                         z_align = arg
                     if 'y_axis' in kind and y_align is None:
@@ -566,7 +574,13 @@ def run(ctx):
             vs = [s for s in body_assigns if norm(s.targets[0]) == vec]
             xs = [s for s in body_assigns if norm(s.targets[0]) == axis]
             if vs or xs:
-                ok = len(vs) == 1 and len(xs) == 1 and norm(vs[0].value.left) == norm(xs[0].value.left)
+                # (the axis only as long as somebody still reads it)
+                later = False
+                if node in fn.body:
+                    later = any(isinstance(n, ast.Name) and n.id == axis and isinstance(n.ctx, ast.Load)
+                                for st in fn.body[fn.body.index(node) + 1:] for n in ast.walk(st))
+                ok = len(vs) == 1 and (len(xs) == 1 and norm(vs[0].value.left) == norm(xs[0].value.left)
+                                       or (not xs and not later))
                 ctx.ob('C20.R3', 'align-both:' + norm(node.test), ok,
                        'an aligning rotation is applied to the vector and to the axis alike',
                        mod, node)
